@@ -248,12 +248,32 @@ class PandasSchemaBackend(BaseSchemaBackend):
         valid_rows = pd.Series(True, index=range(len(check_obj.index)))
         for err in errors:
             index_values = err.failure_cases["index"]
+            # the row-wise output of a check names every failing row, whereas
+            # the reported failure cases may have been truncated by the
+            # check's n_failure_cases option
+            check_output = getattr(err, "check_output", None)
+            if isinstance(check_output, pd.DataFrame) and all(
+                pd.api.types.is_bool_dtype(x) for x in check_output.dtypes
+            ):
+                # a dataframe-level check: one boolean per cell
+                check_output = check_output.all(axis="columns")
+            row_wise = isinstance(
+                check_output, pd.Series
+            ) and pd.api.types.is_bool_dtype(check_output.dtype)
+            if row_wise:
+                check_output = check_output.astype(bool)
             if isinstance(err.schema, Index):
                 # failure cases of an Index schema identify rows by position
+                if row_wise:
+                    index_values = check_output.index[~check_output]
                 mask = ~pd.Series(range(len(check_obj.index))).isin(
                     index_values
                 )
                 mask = mask.to_numpy()
+            elif row_wise:
+                mask = ~check_obj.index.isin(
+                    check_output.index[~check_output]
+                )
             elif isinstance(check_obj.index, pd.MultiIndex):
                 # MultiIndex values are saved on the error as the string
                 # representation of the index tuples, see
